@@ -734,8 +734,15 @@ def replay_file(path: str) -> int:
             c = dict(case["case"], scratch=str(sc))
             _, problems = replay_tree(c)
     else:
-        print("real-tree findings are re-checked by running ./check C19 quick")
-        return 2
+        # a finding on the real tree: run the real-tree phase again and look for the same key
+        run = Run(PID, "replay")
+        with Scratch() as sc:
+            procs = start_runs(sc, TIERS["quick"]["runs"])
+            with make_pool() as pool:
+                real_tree(run, sc, procs, pool)
+        problems = [v["what"] for v in run.violations if v["key"] == data["key"]]
+        if data["key"] in run.known_hit:
+            print(f"KNOWN-FINDING: property={PID} {data['key']}")
     for p in problems:
         print(f"VIOLATION property={PID} replay={path}\n  {p}")
     print("replayed:", data["key"], "->", "violation" if problems else "ok")
